@@ -21,6 +21,20 @@ func (e *Engine) fresh(tag, kind string, s Sort) *Term {
 	occ := e.ndOcc[tag]
 	e.ndOcc[tag] = occ + 1
 	name := fmt.Sprintf("%s#%d", tag, occ)
+	if e.fixed != nil {
+		v := e.fixed[name]
+		var t *Term
+		switch s.K {
+		case SBool:
+			t = e.tb.Bool(v != 0)
+		case SBV:
+			t = e.tb.BVConst(v, s.W)
+		default:
+			t = e.tb.mk(&Term{Op: OpConst, S: s, C: v})
+		}
+		e.nondets = append(e.nondets, &Nondet{Name: name, Tag: tag, Occ: occ, T: t, Kind: kind})
+		return t
+	}
 	t := e.tb.Var(name, s)
 	e.nondets = append(e.nondets, &Nondet{Name: name, Tag: tag, Occ: occ, T: t, Kind: kind})
 	return t
@@ -30,11 +44,12 @@ func (e *Engine) freshInt(tag string, lo, hi int64) *Term {
 	t := e.fresh(tag, "int", BV64)
 	nd := e.nondets[len(e.nondets)-1]
 	nd.Lo, nd.Hi = lo, hi
-	if lo >= 0 {
+	// range constraint holds unconditionally (it describes the input domain); it must be built BEFORE the
+	// bound is registered, otherwise the comparison would simplify itself away
+	e.andAssume(e.tb.Cmp(OpSLE, e.tb.Int(lo), t), e.tb.Cmp(OpSLE, t, e.tb.Int(hi)))
+	if lo >= 0 && e.fixed == nil {
 		e.tb.SetVarUB(t, uint64(hi))
 	}
-	// range constraint holds unconditionally (it describes the input domain)
-	e.assume = e.tb.And(e.assume, e.tb.Cmp(OpSLE, e.tb.Int(lo), t), e.tb.Cmp(OpSLE, t, e.tb.Int(hi)))
 	return t
 }
 
@@ -149,8 +164,13 @@ func (e *Engine) initIntrinsics() {
 		return e.fresh(e.constStr(a[0], "tag"), "float", F64)
 	}
 	I["vp:vpAssume"] = func(e *Engine, a []Value, pos token.Pos, fn *ssa.Function) Value {
+		// the assumption is recorded as (guard => c); the guard itself need not carry c (every later
+		// obligation is decided together with the assumptions), which keeps guards small
 		e.addAssume(a[0].(*Term))
-		e.G = tb.And(e.G, a[0].(*Term))
+		if a[0].(*Term).IsFalse() {
+			e.kills++
+			e.G = tb.False
+		}
 		return nil
 	}
 	I["vp:vpAssert"] = func(e *Engine, a []Value, pos token.Pos, fn *ssa.Function) Value {
@@ -239,6 +259,8 @@ func (e *Engine) initIntrinsics() {
 			e.opts.MaxAlloc = v
 		case "mincap":
 			e.opts.MinCap = v
+		case "feasfrom":
+			e.opts.FeasFrom = v
 		}
 		return nil
 	}
@@ -246,6 +268,13 @@ func (e *Engine) initIntrinsics() {
 	I["vp:vpSymbolic"] = func(e *Engine, a []Value, pos token.Pos, fn *ssa.Function) Value { return tb.True }
 	I["vp:vpObserve"] = func(e *Engine, a []Value, pos token.Pos, fn *ssa.Function) Value {
 		e.observations = append(e.observations, Observation{Label: e.constStr(a[0], "label"), V: a[1], G: e.G})
+		if e.fixed != nil {
+			v := a[1]
+			if iv, ok := v.(*IfaceV); ok && len(iv.Alts) == 1 {
+				v = iv.Alts[0].V
+			}
+			fmt.Fprintf(os.Stderr, "OBSERVE %s=%s (guard %v)\n", e.constStr(a[0], "label"), e.show(v), e.G.IsTrue())
+		}
 		return nil
 	}
 	I["vp:vpBagChan"] = func(e *Engine, a []Value, pos token.Pos, fn *ssa.Function) Value {
@@ -623,18 +652,25 @@ func (e *Engine) initIntrinsics() {
 			return tb.Int(0)
 		}
 		r := e.fresh("rand.Intn", "int64", BV64)
-		e.assume = tb.And(e.assume, tb.Cmp(OpSLE, tb.Int(0), r), tb.Implies(e.G, tb.Cmp(OpSLT, r, n)))
+		if n.IsConst() {
+			e.andAssume(tb.Cmp(OpSLE, tb.Int(0), r), tb.Cmp(OpSLT, r, n))
+			if e.fixed == nil {
+				tb.SetVarUB(r, n.C-1)
+			}
+		} else {
+			e.andAssume(tb.Cmp(OpSLE, tb.Int(0), r), tb.Implies(e.G, tb.Cmp(OpSLT, r, n)))
+		}
 		return r
 	}
 	I["math/rand.Int63n"] = I["math/rand.Intn"]
 	I["math/rand.Float64"] = func(e *Engine, a []Value, pos token.Pos, fn *ssa.Function) Value {
 		r := e.fresh("rand.Float64", "float", F64)
-		e.assume = tb.And(e.assume, tb.FPCmp(OpFLE, tb.FPConst(0, 64), r), tb.FPCmp(OpFLT, r, tb.FPConst(1, 64)))
+		e.andAssume(tb.FPCmp(OpFLE, tb.FPConst(0, 64), r), tb.FPCmp(OpFLT, r, tb.FPConst(1, 64)))
 		return r
 	}
 	I["math/rand.Int63"] = func(e *Engine, a []Value, pos token.Pos, fn *ssa.Function) Value {
 		r := e.fresh("rand.Int63", "int64", BV64)
-		e.assume = tb.And(e.assume, tb.Cmp(OpSLE, tb.Int(0), r))
+		e.andAssume(tb.Cmp(OpSLE, tb.Int(0), r))
 		return r
 	}
 	I["math/rand.Uint64"] = func(e *Engine, a []Value, pos token.Pos, fn *ssa.Function) Value {
@@ -737,6 +773,17 @@ func (e *Engine) initIntrinsics() {
 	I["(github.com/libp2p/go-libp2p/core/peer.ID).ShortString"] = ident
 	I["(github.com/libp2p/go-libp2p/core/peer.ID).Loggable"] = noop
 	I["github.com/libp2p/go-libp2p/p2p/host/peerstore/pstoremem.NewAddrBook"] = noop
+
+	// ---- shuffles: summarised as "some permutation" (vcheck selftest shows the real functions yield exactly the permutations)
+	shuffle := func(e *Engine, a []Value, pos token.Pos, fn *ssa.Function) Value {
+		e.permute(a[0].(*SliceV), pos)
+		return nil
+	}
+	if os.Getenv("VERIF_REAL_SHUFFLE") == "" {
+		I[e.repoPkgPrefix+".shufflePeers"] = shuffle
+		I[e.repoPkgPrefix+".shuffleStrings"] = shuffle
+		I[e.repoPkgPrefix+".shufflePeerInfo"] = shuffle
+	}
 
 	// ---- sort ----------------------------------------------------------------------------------
 	I["sort.Slice"] = func(e *Engine, a []Value, pos token.Pos, fn *ssa.Function) Value {
@@ -859,4 +906,52 @@ func (e *Engine) sortSlice(x *IfaceV, less *FuncV, pos token.Pos) Value {
 	}
 	e.G = G0
 	return nil
+}
+
+// permute replaces the contents of a slice by an arbitrary permutation of them (fresh index variables).
+func (e *Engine) permute(s *SliceV, pos token.Pos) {
+	tb := e.tb
+	G0 := e.G
+	for _, al := range s.Alts {
+		if al.Arr == nil {
+			continue
+		}
+		g := tb.And(G0, al.G)
+		if g.IsFalse() {
+			continue
+		}
+		n := e.maxLen(al)
+		if n <= 1 {
+			continue
+		}
+		if !al.Off.IsConst() {
+			panic(e.unsupported("shuffle of a slice with symbolic offset"))
+		}
+		off := int(al.Off.C)
+		old := make([]Value, n)
+		copy(old, al.Arr.E[off:off+n])
+		// pi[k] in [0,len), pairwise distinct for k < len
+		pi := make([]*Term, n)
+		for k := 0; k < n; k++ {
+			pi[k] = e.fresh("perm", "int64", BV64)
+			inLen := tb.Cmp(OpSLT, tb.Int(int64(k)), al.Len)
+			e.andAssume(tb.Cmp(OpSLE, tb.Int(0), pi[k]), tb.Cmp(OpSLT, pi[k], tb.Int(int64(n))),
+				tb.Implies(tb.And(g, inLen), tb.Cmp(OpSLT, pi[k], al.Len)))
+			if e.fixed == nil {
+				tb.SetVarUB(pi[k], uint64(n-1))
+			}
+			for m := 0; m < k; m++ {
+				e.andAssume(tb.Implies(tb.And(g, inLen), tb.Not(tb.Eq(pi[k], pi[m]))))
+			}
+		}
+		for k := 0; k < n; k++ {
+			inLen := tb.Cmp(OpSLT, tb.Int(int64(k)), al.Len)
+			gk := tb.And(g, inLen)
+			if gk.IsFalse() {
+				continue
+			}
+			nv := e.selectElem(old, pi[k])
+			al.Arr.E[off+k] = e.iteVal(gk, nv, al.Arr.E[off+k])
+		}
+	}
 }
